@@ -16,7 +16,8 @@
 -/
 import CatVerif.Proofs.Hold
 import CatVerif.Proofs.Log
-import CatVerif.Proofs.Setters
+import CatVerif.Proofs.Setters.Reset
+import CatVerif.Proofs.Setters.HoldSet
 import CatVerif.Proofs.Steps.Hold
 import CatVerif.Proofs.Steps.Loops
 namespace Cat
